@@ -1,4 +1,4 @@
-import FrappyModel.Klass.Instance
+import FrappyModel.Klass.Session
 /-
 C09 — Module classes, instances and configurations are isolated from each other.
 
